@@ -117,6 +117,7 @@ type fixedFinding struct {
 	Commit   string `json:"commit"`
 	What     string `json:"what"`
 	Key      string `json:"key,omitempty"`
+	Rule     string `json:"rule,omitempty"`
 }
 
 type knownFindings struct {
